@@ -1840,7 +1840,17 @@ func (sc *serverConn) writeLoop() {
 	buffered := 0
 
 	send := func(fr *FrameHeader) error {
-		_, err := fr.WriteTo(sc.bw)
+		var err error
+
+		// A response header block larger than a frame is continued in
+		// CONTINUATION frames. It is split here, on the only goroutine that
+		// writes to the socket, so that no other frame can come in between.
+		if h, ok := fr.Body().(*Headers); ok {
+			err = writeHeaderBlock(sc.bw, fr, h, maxDataFrameSize)
+		} else {
+			_, err = fr.WriteTo(sc.bw)
+		}
+
 		if err == nil && (len(sc.writer) == 0 || buffered > 10) {
 			err = sc.bw.Flush()
 			buffered = 0
